@@ -5,6 +5,7 @@ CONSTANTS
   T = 3
   VerifyAttached = TRUE
   MaxMsgs = 3
+  Rep = {1, 3}
   MaxSet = 4
 
 INVARIANT GPrint
